@@ -36,23 +36,49 @@ NAME_TRIPLES = [("X", "Y", "Z"), ("t", "e", "r"), ("c", "n", "i"), ("leftover", 
 
 
 # ------------------------------------------------------------------ (a) language
+def _acceptance_call(func):
+    """(how, pattern text, flags) of the regular-expression test that guards a parser, read from the AST of the
+    current source: re.<how>(NAME, arg) or NAME.<how>(arg), NAME a module-level str or compiled pattern"""
+    import xgcm.grid_ufunc as gu
+    tree = ast.parse(textwrap.dedent(inspect.getsource(func)))
+    found = []
+    for node in ast.walk(tree):
+        if not (isinstance(node, ast.Call) and isinstance(node.func, ast.Attribute) and node.func.attr in ("match", "fullmatch", "search")
+                and isinstance(node.func.value, ast.Name)):
+            continue
+        base = node.func.value.id
+        if base == "re":
+            if not (node.args and isinstance(node.args[0], ast.Name)):
+                continue
+            obj = getattr(gu, node.args[0].id, None)
+            flags = 0
+            if len(node.args) > 2 or node.keywords:
+                raise harness.HarnessError("regular-expression flags passed at the call site are not modelled")
+        else:
+            obj = getattr(gu, base, None)
+            flags = 0
+        if isinstance(obj, re.Pattern):
+            obj, flags = obj.pattern, obj.flags
+        if isinstance(obj, str):
+            found.append((node.func.attr, obj, flags))
+    return found
+
+
 def acceptance_regex():
     """z3 regex of the strings (without spaces) that the real parser accepts, derived from the current source"""
     import xgcm.grid_ufunc as gu
     src = textwrap.dedent(inspect.getsource(gu._parse_signature_from_string))
-    tree = ast.parse(src)
-    how = None
-    strip_ok = False
-    for node in ast.walk(tree):
-        if isinstance(node, ast.Call) and isinstance(node.func, ast.Attribute) and isinstance(node.func.value, ast.Name) and node.func.value.id == "re":
-            if node.func.attr in ("match", "fullmatch") and node.args and isinstance(node.args[0], ast.Name) and node.args[0].id == "_SIGNATURE":
-                how = node.func.attr
-        if isinstance(node, ast.Call) and isinstance(node.func, ast.Attribute) and node.func.attr == "replace" and len(node.args) == 2 \
-                and all(isinstance(a, ast.Constant) for a in node.args) and node.args[0].value == " " and node.args[1].value == "":
-            strip_ok = True
-    if how is None or not strip_ok:
-        raise harness.HarnessError("acceptance in _parse_signature_from_string is no longer re.match/fullmatch(_SIGNATURE, signature.replace(' ', ''))")
-    return re2smt.translate(gu._SIGNATURE, fullmatch=(how == "fullmatch")), how, gu._SIGNATURE
+    strip_ok = any(isinstance(node, ast.Call) and isinstance(node.func, ast.Attribute) and node.func.attr == "replace" and len(node.args) == 2
+                   and all(isinstance(a, ast.Constant) for a in node.args) and node.args[0].value == " " and node.args[1].value == ""
+                   for node in ast.walk(ast.parse(src)))
+    found = [f for f in _acceptance_call(gu._parse_signature_from_string) if f[1] == gu._SIGNATURE]
+    if len(found) != 1 or not strip_ok:
+        raise harness.HarnessError("acceptance in _parse_signature_from_string is no longer one regular-expression test of _SIGNATURE on signature.replace(' ', '')")
+    how, pattern, flags = found[0]
+    try:
+        return re2smt.translate(pattern, how=how, flags=flags), how, pattern
+    except re2smt.Unsupported as e:
+        raise harness.HarnessError("regular expression outside the translator: %s" % e)
 
 
 def lit(s):
@@ -118,7 +144,12 @@ def real_accepts(s):
 def prechecks(tier):
     t0 = time.time()
     info = dict(oblig=0, discharged=0, solver_s=0.0, solver_calls=0, errors=[], violations=[], samples=[], coverage={})
-    R, how, pattern = acceptance_regex()
+    try:
+        R, how, pattern = acceptance_regex()
+    except harness.HarnessError as e:
+        # no language verdict (exit 2 unless the explored clauses find a replayable violation)
+        info["errors"].append("HarnessError: %s" % e)
+        return info
     s = z3.String("s")
 
     def query(label, formula, expect_real_accept=None):
@@ -155,7 +186,7 @@ def prechecks(tier):
                 sv.add(z3.InRe(s, z3.Star(z3.Union(WORD, anyof(":,()->\n")))))
             if sv.check() == z3.sat:
                 w = z3_string(sv.model().eval(s, model_completion=True))
-                real = bool(getattr(re, how)(pattern, w))
+                real = bool(getattr(re.compile(pattern), how)(w))
                 nval += 1
                 if real != positive:
                     info["errors"].append("regex translation disagrees with re.%s on %r (z3 says %s)" % (how, w, positive))
@@ -164,7 +195,7 @@ def prechecks(tier):
     for _ in range(300):
         w = "".join(rng.choice(alphabet) for _ in range(rng.randint(0, 14)))
         nval += 1
-        if bool(getattr(re, how)(pattern, w)) != re2smt.member(R, w):
+        if bool(getattr(re.compile(pattern), how)(w)) != re2smt.member(R, w):
             info["errors"].append("regex translation disagrees with re.%s on %r" % (how, w))
     # (a1) every well-formed string is accepted
     w = query("wellformed-subset-of-accepted", z3.And(z3.InRe(s, grammar()), z3.Not(z3.InRe(s, R))))
